@@ -444,6 +444,14 @@ inductive Ord4 | lt | eq | gt | un
 def Ord4.rev : Ord4 → Ord4
   | .lt => .gt | .gt => .lt | .eq => .eq | .un => .un
 
+/-- the tests the nodes apply to the helper's result: `c == -1`, `c == -1 || c == 0`, `c == 1`,
+`c == 1 || c == 0`, `c == 0` -/
+def Ord4.isLt (o : Ord4) : Bool := o == .lt
+def Ord4.isLe (o : Ord4) : Bool := o == .lt || o == .eq
+def Ord4.isGt (o : Ord4) : Bool := o == .gt
+def Ord4.isGe (o : Ord4) : Bool := o == .gt || o == .eq
+def Ord4.isEq (o : Ord4) : Bool := o == .eq
+
 /-- `cmp.Compare` on Go `int` -/
 def ordInt (x y : BitVec 64) : Ord4 :=
   if BitVec.slt x y then .lt else if BitVec.slt y x then .gt else .eq
@@ -508,18 +516,18 @@ def viaCompare (T : TruthTable) (test : Ord4 → Bool) (a b : Val F) : Res F :=
   | some o => .val (.bool (test o))
   | none => .crash
 
-def lt (T : TruthTable) := viaCompare P T (fun o => o == .lt)
-def le (T : TruthTable) := viaCompare P T (fun o => o == .lt || o == .eq)
-def gt (T : TruthTable) := viaCompare P T (fun o => o == .gt)
-def ge (T : TruthTable) := viaCompare P T (fun o => o == .gt || o == .eq)
+def lt (T : TruthTable) := viaCompare P T Ord4.isLt
+def le (T : TruthTable) := viaCompare P T Ord4.isLe
+def gt (T : TruthTable) := viaCompare P T Ord4.isGt
+def ge (T : TruthTable) := viaCompare P T Ord4.isGe
 
 /-- `==`; `same` = both operands are one and the same Go object (`lv == rv`) -/
 def eqv (T : TruthTable) (same : Bool) (a b : Val F) : Res F :=
-  if same then .val (.bool true) else viaCompare P T (fun o => o == .eq) a b
+  if same then .val (.bool true) else viaCompare P T Ord4.isEq a b
 
 /-- `!=` -/
 def nev (T : TruthTable) (same : Bool) (a b : Val F) : Res F :=
-  if same then .val (.bool false) else viaCompare P T (fun o => o != .eq) a b
+  if same then .val (.bool false) else viaCompare P T (fun o => !o.isEq) a b
 
 /-- `isStrictEqual` (arrays `[1..n]`: equal iff same length; objects of the model are built alike;
 class instances are compared by identity) -/
@@ -670,5 +678,52 @@ def evalUn (T : TruthTable) (op : UnOp) (a : Val F) : Res F :=
   | .castb => castB P T a | .casti => castI P T a | .castf => castF P T a
 
 end
+
+/-! ## how the comparison nodes read the helper — regenerated by the translator -/
+
+/-- the test a comparison node applies to `data.LooseCompare(left, right)`; `other` = the node does
+something else (own type dispatch, another helper, operands swapped …) -/
+inductive CmpTest | isEq | isNe | isLt | isLe | isGt | isGe | toInt | other
+  deriving DecidableEq, Repr
+
+/-- one comparison node: its operator, the test, and the constant it returns for identical operand
+objects (`if lv == rv { return … }`, `==` and `!=` only) -/
+structure CmpSite where
+  op : BinOp
+  test : CmpTest
+  identity : Option Bool
+  deriving DecidableEq, Repr
+
+/-- the seven comparison nodes as `eqv nev lt le gt ge cmp` model them -/
+def cmpSites : List CmpSite := [
+  { op := .eq, test := .isEq, identity := some true },
+  { op := .ne, test := .isNe, identity := some false },
+  { op := .lt, test := .isLt, identity := none },
+  { op := .le, test := .isLe, identity := none },
+  { op := .gt, test := .isGt, identity := none },
+  { op := .ge, test := .isGe, identity := none },
+  { op := .cmp, test := .toInt, identity := none }]
+
+def CmpTest.apply {F : Type} : CmpTest → Ord4 → Option (Val F)
+  | .isEq, o => some (.bool o.isEq)
+  | .isNe, o => some (.bool (!o.isEq))
+  | .isLt, o => some (.bool o.isLt)
+  | .isLe, o => some (.bool o.isLe)
+  | .isGt, o => some (.bool o.isGt)
+  | .isGe, o => some (.bool o.isGe)
+  | .toInt, o => some (.int o.toInt)
+  | .other, _ => none
+
+/-- what a node described by a `CmpSite` computes -/
+def CmpSite.eval {F : Type} (P : Prim F) (T : TruthTable) (s : CmpSite) (same : Bool) (a b : Val F) : Res F :=
+  match s.identity, same with
+  | some v, true => .val (.bool v)
+  | _, _ =>
+    match looseCompare P T a b with
+    | some o =>
+      match s.test.apply o with
+      | some v => .val v
+      | none => .crash
+    | none => .crash
 
 end Model.Ops
